@@ -225,3 +225,23 @@ Proof.
   apply (own_fork s se h (map fst l) d W V); [symmetry; exact S|].
   apply in_map_iff. exists (d, s'). split; [reflexivity | exact Hin].
 Qed.
+
+(* UpdateSkippedEpochDefinitions (repaired) never fails because of what other forks announced *)
+Lemma update_skipped_total : forall s se ce h d, wf (e_tree s) = true -> valid_hdr (e_tree s) h = true ->
+  (se = 0 \/ alookup (dbe s) se = Some d) ->
+  exists l, update_skipped fixed true (enough_fuel (e_tree s)) s se ce h = Ok l /\ l <> [].
+Proof.
+  intros s se ce h d W V Hd. unfold update_skipped.
+  destruct (se =? 0) eqn:E0; [eexists; split; [reflexivity | discriminate]|].
+  destruct Hd as [Hd|Hd]; [apply N.eqb_neq in E0; contradiction|].
+  unfold db_move at 1. rewrite Hd.
+  set (s1 := with_dbe s _).
+  destruct (db_move (dbc s1) se ce) as [[d0 dbc']|]; [eexists; split; [reflexivity | discriminate]|].
+  change (e_tree s1) with (e_tree s).
+  rewrite retrieve_update_fixed by (try exact W; apply valid_enough; exact V).
+  destruct (alookup (ncd s1) se) as [entries|].
+  - destruct (chain_entries (e_tree s) entries h) as [|x r].
+    + eexists; split; [reflexivity | discriminate].
+    + eexists; split; [reflexivity | discriminate].
+  - eexists; split; [reflexivity | discriminate].
+Qed.
